@@ -348,6 +348,10 @@ class Proc(object):
                 key = self.coerce(kt_, kty, dty[1])
                 dflt = self.coerce(dt_, dfty, dty[2])
                 return ("((%s.lookup %s).getD %s)" % (d, key, dflt), dty[2])
+        if fname == "list" and len(e.args) == 1:
+            t, ty = self.expr(e.args[0], env)
+            if isinstance(ty, tuple) and ty[0] == "List":
+                return (t, ty)             # a copy of an immutable list is the list
         if fname == "len" and len(e.args) == 1:
             t, ty = self.expr(e.args[0], env)
             if isinstance(ty, tuple) and ty[0] == "List":
@@ -526,7 +530,7 @@ class Proc(object):
                     raise Untranslatable("call of a raising function in a function that does not raise")
                 n = env.fresh("v")
                 txt, en = self.assign_name(tgt, n, vty[2], env)
-                return "(match %s with\n| .error e => .error e\n| .ok %s =>\n%s%s)" % (vt, n, txt, self.block(rest, en, k))
+                return "(andThen %s fun %s =>\n%s%s)" % (vt, n, txt, self.block(rest, en, k))
             txt, en = self.assign_name(tgt, vt, vty, env)
             return txt + self.block(rest, en, k)
         if isinstance(s, ast.AugAssign) and isinstance(s.target, ast.Name):
@@ -536,13 +540,26 @@ class Proc(object):
             vt, vty = self.binop(fake, env)
             txt, en = self.assign_name(s.target, vt, vty, env)
             return txt + self.block(rest, en, k)
+        if isinstance(s, ast.Expr) and isinstance(s.value, ast.Call) and isinstance(s.value.func, ast.Attribute) and s.value.func.attr == "sort" \
+                and isinstance(s.value.func.value, ast.Name) and not s.value.args and len(s.value.keywords) == 1 and s.value.keywords[0].arg == "key":
+            # xs.sort(key = K) with K = functools.cmp_to_key(F) at module level and F a translated function: Python's sort is stable, so the result is
+            # the stable insertion sort by `F(a, b) <= 0`
+            kname = self.seg(s.value.keywords[0].value)
+            cmpf = self.spec.get("sort_keys", {}).get(kname)
+            if cmpf is None or cmpf not in self.procs:
+                raise Untranslatable("sort key %s" % kname)
+            xs, xty = self.expr(s.value.func.value, env)
+            if not (isinstance(xty, tuple) and xty[0] == "List"):
+                raise Untranslatable("sort of %s" % (xty,))
+            txt, en = self.assign_name(s.value.func.value, "(stableSortBy (fun a b => decide (%s a b ≤ 0)) %s)" % (self.procs[cmpf]["name"], xs), xty, env)
+            return txt + self.block(rest, en, k)
         if isinstance(s, ast.Expr) and isinstance(s.value, ast.Call):
             # statement call of a raising proc:  self._check_positive(...)
             vt, vty = self.expr(s.value, env)
             if isinstance(vty, tuple) and vty[0] == "Except":
                 if self.ret[0] != "Except" or self.ret[1] != vty[1]:
                     raise Untranslatable("call of a raising function in a function that does not raise")
-                return "(match %s with\n| .error e => .error e\n| .ok _ =>\n%s)" % (vt, self.block(rest, env, k))
+                return "(andThen %s fun _ =>\n%s)" % (vt, self.block(rest, env, k))
             raise Untranslatable("expression statement %s" % (self.seg(s.value) or "")[:50])
         if isinstance(s, ast.If):
             body_t, else_t = self.terminates(s.body), self.terminates(s.orelse)
@@ -658,9 +675,12 @@ PROCS = [
     dict(name="range_search", file="_multi_range_potential_form.py", func="Multi_Range_Potential_Form._range_search",
          params=[("self.range_defns", ("List", ("Rec", "PRange"))), ("r", "Int")], ret=("Opt", ("Rec", "PRange")), records=RD_REC,
          locals={"last": ("Opt", ("Rec", "PRange"))}),
+    dict(name="range_defns_setter", file="_multi_range_potential_form.py", func="Multi_Range_Potential_Form.range_defns", nth=1,
+         params=[("range_defns", ("List", ("Rec", "PRange")))], ret=("List", ("Rec", "PRange")), records=RD_REC,
+         sort_keys={"_range_defn_key": "_range_defn_cmp"}, returns_attr="self._range_defns"),
     # ---- C13: species filter
     dict(name="check_tuple", file="config/_filtered_config_parser.py", func="FilteredConfigParser._check_tuple",
-         params=[("self._self_species_list", ("List", "Nat")), ("self._self_exclude_flag", "Bool"), ("check_tuple", ("List", "Nat"))], ret="Bool"),
+         params=[("self._self_species_list", ("List", "Str")), ("self._self_exclude_flag", "Bool"), ("check_tuple", ("List", "Str"))], ret="Bool"),
     # ---- C11: [Tabulation] grid rules
     dict(name="check_positive", file="config/_config_parser.py", func="_TabulationCutoff._check_positive",
          params=[("nr", ("Opt", "Int")), ("dr", ("Opt", "Rat")), ("cutoff", ("Opt", "Rat"))], ret=("Except", "LogicErr", "Unit"),
@@ -680,10 +700,15 @@ PROCS = [
          ret=("Opt", "Str"), returns_attr="self._target"),
 ]
 
+TABLES = [
+    ("tabulation_factories", "config/_tabulation_factories.py", "TABULATION_FACTORIES"),
+]
+
 PRELUDE = """import AtsimModel.Model.Basic
 /-! GENERATED by translator/py2lean_logic.py from /repo's current source - do not edit.
     Decision logic of the library as ordinary Lean definitions, one per Python function (see the translator's docstring for the
     fragment and for how None / truthiness / short-circuit evaluation / loops with early return / raise are made explicit). -/
+set_option linter.unusedVariables false
 namespace Atsim.Gen.Logic
 
 /-- a range definition as `_range_search` sees it: `start` (here an integer rank, the search only compares), the marker text and the identity of the potential form -/
@@ -698,15 +723,35 @@ inductive LogicErr where
   | allThree | stepAlone | nonPositive | tooFewRows
 deriving DecidableEq, Repr
 
+/-- stable insertion: `x` goes after every element `y` with `le y x` -/
+def insertBy {α : Type} (le : α → α → Bool) (x : α) : List α → List α
+  | [] => [x]
+  | y :: ys => if le y x then y :: insertBy le x ys else x :: y :: ys
+
+/-- `xs.sort(key = functools.cmp_to_key(cmp))` with `le a b := cmp(a, b) <= 0`: Python's sort is stable -/
+def stableSortBy {α : Type} (le : α → α → Bool) (l : List α) : List α := l.foldl (fun acc x => insertBy le x acc) []
+
+/-- a call that may raise, followed by the rest of the function: the exception propagates -/
+def andThen {ε α β : Type} (x : Except ε α) (k : α → Except ε β) : Except ε β :=
+  match x with
+  | .error e => .error e
+  | .ok a => k a
+
 """
 
 
-def find_function(tree, path):
+def find_function(tree, path, nth=0):
+    """nth: which of several definitions of the LAST name (a property's getter and setter share it)"""
     node = tree
-    for part in path.split("."):
+    parts = path.split(".")
+    for pi, part in enumerate(parts):
         nxt = None
+        seen = 0
         for n in ast.iter_child_nodes(node):
             if isinstance(n, (ast.FunctionDef, ast.ClassDef)) and n.name == part:
+                if pi == len(parts) - 1 and seen < nth:
+                    seen += 1
+                    continue
                 nxt = n
                 break
         if nxt is None:
@@ -723,7 +768,7 @@ class _Prep(object):
 
 def prepare(spec, src, tree):
     import copy
-    fn = copy.deepcopy(find_function(tree, spec["func"]))
+    fn = copy.deepcopy(find_function(tree, spec["func"], spec.get("nth", 0)))
     body = []
     for st in fn.body:
         if isinstance(st, ast.Assign) and isinstance(st.value, ast.Call):
@@ -789,6 +834,11 @@ def gen_logic(repo, outdir, summary, write_if_changed):
                 src = open(fp).read()
                 cache[fp] = (src, ast.parse(src))
             src, tree = cache[fp]
+            for kname, cmpf in spec.get("sort_keys", {}).items():
+                ok = any(isinstance(n, ast.Assign) and len(n.targets) == 1 and isinstance(n.targets[0], ast.Name) and n.targets[0].id == kname
+                         and ast.unparse(n.value).replace(" ", "") == "functools.cmp_to_key(%s)" % cmpf for n in tree.body)
+                if not ok:
+                    raise Untranslatable("%s is not functools.cmp_to_key(%s)" % (kname, cmpf))
             fn = prepare(spec, src, tree)
             p = _SegProc(spec, src, fn, procs)
             text = p.translate()
@@ -798,6 +848,41 @@ def gen_logic(repo, outdir, summary, write_if_changed):
         except (Untranslatable, OSError, SyntaxError, IndexError, KeyError) as e:
             res[spec["name"]] = "%s: %s" % (type(e).__name__, e)
             out.append("-- %s `%s` is UNTRANSLATABLE: %s\n" % (spec["file"], spec["func"], str(e).replace("\n", " ")))
+    # ---- module-level registries (dictionary literals whose values are constructor calls): key, callee, positional arguments as written
+    for tname, rel, dname in TABLES:
+        try:
+            fp = os.path.join(repo, "atsim/potentials", rel)
+            if fp not in cache:
+                src = open(fp).read()
+                cache[fp] = (src, ast.parse(src))
+            src, tree = cache[fp]
+            found = None
+            for n in tree.body:
+                if isinstance(n, ast.Assign) and len(n.targets) == 1 and isinstance(n.targets[0], ast.Name) and n.targets[0].id == dname and isinstance(n.value, ast.Dict):
+                    found = n.value
+            if found is None:
+                raise Untranslatable("no module-level dictionary %s" % dname)
+            rows = []
+            for k, v in zip(found.keys, found.values):
+                if not (isinstance(k, ast.Constant) and isinstance(k.value, str)):
+                    raise Untranslatable("non-literal key in %s" % dname)
+                if not (isinstance(v, ast.Call) and isinstance(v.func, ast.Name) and not v.keywords):
+                    raise Untranslatable("value of %r in %s is not a plain constructor call" % (k.value, dname))
+                args = []
+                for a in v.args:
+                    if isinstance(a, ast.Constant) and isinstance(a.value, str):
+                        args.append(a.value)
+                    elif isinstance(a, ast.Name):
+                        args.append(a.id)
+                    else:
+                        raise Untranslatable("argument of %s(...) in %s" % (v.func.id, dname))
+                rows.append('("%s", "%s", [%s])' % (k.value, v.func.id, ", ".join('"%s"' % x for x in args)))
+            out.append("/-- %s `%s`: (key, constructor, its positional arguments as written) in source order -/" % (rel, dname))
+            out.append("def %s : List (String × String × List String) := [\n  %s]\n" % (tname, ",\n  ".join(rows)))
+            res[tname] = True
+        except (Untranslatable, OSError, SyntaxError) as e:
+            res[tname] = "%s: %s" % (type(e).__name__, e)
+            out.append("-- %s `%s` is UNTRANSLATABLE: %s\n" % (rel, dname, str(e).replace("\n", " ")))
     out.append("end Atsim.Gen.Logic\n")
     changed = write_if_changed(os.path.join(outdir, "Logic.lean"), "\n".join(out))
     summary["logic"] = dict(changed=changed, procs=res)
